@@ -60,7 +60,7 @@ def _proto_steps(draw):
 def _op(draw):
     kind = draw(
         st.sampled_from(
-            ["simulate"] * 4 + ["time_course"] * 4 + ["protocol", "protocol_tc"] + ["update_parameter"] * 2
+            ["simulate"] * 4 + ["time_course"] * 4 + ["protocol"] + ["protocol_tc"] * 3 + ["update_parameter"] * 2
             + ["scale_parameter", "update_variable", "update_variable", "update_variables", "steady_state", "clear_results"]
         )
     )
@@ -78,6 +78,15 @@ def _op(draw):
     elif kind == "protocol_tc":
         op["steps"] = draw(_proto_steps())
         offs = draw(st.lists(st.integers(-4, 30).map(lambda i: i / 2), min_size=1, max_size=6, unique=True))
+        if draw(st.booleans()):
+            # ask for values exactly on step boundaries as well (the usual "every second, steps of 5 s")
+            cum = 0
+            for d_, _ in op["steps"]:
+                cum += round(d_ * 1000)
+                if draw(st.booleans()):
+                    offs.append(cum / 1000.0)
+            offs = sorted(set(offs))
+            op["on_boundary"] = True
         op["offsets"] = sorted(offs)
         op["relative"] = draw(st.booleans())
     elif kind in ("update_parameter", "scale_parameter"):
@@ -143,7 +152,7 @@ def examine(case: dict, ctx) -> Outcome:
     trace: list = []
     ctxs: set[str] = set()
     nres = 0
-    flags = {"override_after_sim": False, "param_change_between": False, "steady_then_op": False, "illegal_end": False, "overlap": False}
+    flags = {"override_after_sim": False, "param_change_between": False, "steady_then_op": False, "illegal_end": False, "overlap": False, "point_on_step_boundary_at_inexact_start": False}
     last_ctx = "plain"
     after_steady = False
 
@@ -335,6 +344,8 @@ def examine(case: dict, ctx) -> Outcome:
                     arg = np.array(offs if op["relative"] else pts_abs, dtype=float)
                     legal = pts_abs[-1] > t
                     trace.append([k, len(steps), "relative" if op["relative"] else "absolute", "legal" if legal else "illegal", last_ctx])
+                    if op.get("on_boundary") and legal and t != round(t, 6):
+                        flags["point_on_step_boundary_at_inexact_start"] = True
                     if not legal:
                         flags["illegal_end"] = True
                     try:
@@ -426,7 +437,7 @@ def examine(case: dict, ctx) -> Outcome:
 
 def floors(ctx) -> list[str]:
     c = []
-    for k in ["flag:override_after_sim", "flag:param_change_between", "flag:steady_then_op", "flag:illegal_end", "flag:overlap", "time_dependent_model+override_after_sim"]:
-        if ctx.classes.get(k, 0) < max(3, ctx.evaluations // 40):
+    for k in ["flag:override_after_sim", "flag:param_change_between", "flag:steady_then_op", "flag:illegal_end", "flag:overlap", "flag:point_on_step_boundary_at_inexact_start", "time_dependent_model+override_after_sim"]:
+        if ctx.classes.get(k, 0) < max(3, ctx.evaluations // (100 if "step_boundary" in k else 40)):
             c.append(f"class {k} only {ctx.classes.get(k, 0)}/{ctx.evaluations}")
     return c
